@@ -308,6 +308,8 @@ def main(argv=None):
             else:
                 n_incon += 1
                 inconclusive.append((r["key"], x["name"], x.get("note") or x.get("refine") or x["verdict"]))
+                if a.v:
+                    print("  inconclusive record:", r["key"], {k: str(v)[:400] for k, v in x.items() if k not in ("inputs",)}, flush=True)
         if len(samples) < 6 and real:
             x = real[0]
             samples.append({"config": r["key"], "obligation": x["name"], "verdict": x["verdict"], "seconds": x["seconds"], "paths": r["paths"]})
